@@ -42,7 +42,18 @@ Front ends (DESIGN.md section 4):
       MeleeString::try_from call sites of fn player (src/io/slippi/de.rs) -> Gen/MeleeStringSrc.v (Proofs/MeleeStringLayout.v);
   (r) hashing front end: struct HashingReader and its impls, fn format_hash (src/io/mod.rs), the option / hashing lines of
       fn read (src/io/slippi/de.rs) -> Gen/HashingSrc.v (Proofs/HashingLayout.v);
-  (s) port-occupancy front end: fn port_occupancy (src/game/mod.rs) -> Gen/PortOccupancySrc.v (Proofs/PortOccupancyLayout.v).
+  (s) port-occupancy front end: fn port_occupancy (src/game/mod.rs) -> Gen/PortOccupancySrc.v (Proofs/PortOccupancyLayout.v);
+  (t) Game Start -> player wiring front end: the statement of fn game_start (src/io/slippi/de.rs) that calls `player(..)`: the port
+      range, the block / component / index passed for every parameter, the collecting adaptor chain (any chain in which an Err or a
+      player can disappear is rejected) -> Gen/StartWiring.v (Proofs/StartWiringLayout.v);
+  (u) JSON-shape front end: the `#[derive(Serialize)]` declarations reachable from game::Start / game::End (src/game/mod.rs,
+      src/io/slippi/mod.rs, src/game/shift_jis.rs): keys in order, serde attributes, field kinds, unit enums -> Gen/JsonShape.v
+      (Proofs/JsonShapeLayout.v);
+  (v) UBJSON body front end: width / signedness / byte order of every read and write of src/io/ubjson/{de,ser}.rs, the steps of
+      to_utf8, the depth guard and the depths passed around, the writer's length prefix and integer conversion ->
+      Gen/UbjsonBodies.v (Proofs/UbjsonBodiesLayout.v);
+  (w) tar-entry front end: the statements of fn tar_append and the closing statement of fn write (src/io/peppi/ser.rs) ->
+      Gen/TarSrc.v (Proofs/TarLayout.v).
 
 Anything it does not recognise is a loud failure (exit 3, message naming file/item/token): the checks then
 treat every property that depends on the tables as "tie broken" and go searching for a failing input.
@@ -5538,6 +5549,774 @@ def gen_port_occupancy():
     return '\n'.join(L) + '\n'
 
 
+# ------------------------------------------------------------------------------------------------
+# (t) Game Start -> player wiring front end: the one statement of fn game_start (src/io/slippi/de.rs) that calls `player(..)`:
+#     the port range, what is passed for every parameter of `player` (which block, which component, which index), and the
+#     adaptor chain that collects the results -> Gen/StartWiring.v
+
+# adaptors through which an `Err` (or a whole Result) can disappear silently
+SW_SWALLOW = ('flat_map', 'flatten', 'ok', 'unwrap_or', 'unwrap_or_default', 'unwrap_or_else', 'filter', 'find_map', 'map_while',
+              'take_while', 'skip_while', 'find', 'and_then', 'or_else', 'or', 'unwrap', 'expect', 'is_ok', 'is_err', 'ok_or', 'next',
+              'last', 'nth', 'partition', 'sum', 'product', 'fold', 'try_fold', 'rev', 'skip', 'take', 'step_by', 'chain', 'zip', 'map', 'flat')
+
+
+SW_STRICT = ('flat_map', 'flatten', 'ok', 'unwrap_or', 'unwrap_or_default', 'unwrap_or_else', 'filter', 'find_map', 'map_while', 'take_while',
+             'skip_while', 'or_else', 'or', 'and_then', 'is_ok', 'is_err', 'partition', 'try_fold', 'fold')
+
+
+def method_chain(toks, where):
+    """`<receiver> . m1 [::<T>] ( args ) [?] . m2 ( args ) [?] ..` -> (receiver tokens, [(name, turbofish text | None, arg tokens, followed by `?`)]);
+    the receiver is a parenthesised expression, or a path optionally followed by one call"""
+    sv = StmtView(toks, where)
+    i = 0
+    if sv.is_p(0, '('):
+        i = match_close(toks, 0) + 1
+    else:
+        while i < len(toks) and (toks[i][0] == 'id' or toks[i] == ('punct', '::')):
+            i += 1
+        if i == 0:
+            raise TranslateError('%s: unrecognised head of a method chain: %s' % (where, sj(toks)[:200]))
+        if sv.is_p(i, '('):
+            i = match_close(toks, i) + 1
+    recv = toks[:i]
+    calls = []
+    while i < len(toks):
+        if not sv.is_p(i, '.') or i + 1 >= len(toks) or toks[i + 1][0] != 'id':
+            raise TranslateError('%s: unrecognised continuation of a method chain at `%s`: %s' % (where, sj(toks[i:i + 6]), sj(toks)[:300]))
+        name = toks[i + 1][1]
+        j = i + 2
+        fish = None
+        if sv.is_p(j, '::') and sv.is_p(j + 1, '<'):
+            e = sv.angle_close(j + 1)
+            fish = sj(toks[j + 2:e])
+            j = e + 1
+        if not sv.is_p(j, '('):
+            raise TranslateError('%s: `.%s` is not a method call: %s' % (where, name, sj(toks)[:300]))
+        e = match_close(toks, j)
+        q = sv.is_p(e + 1, '?')
+        calls.append((name, fish, toks[j + 1:e], q))
+        i = e + (2 if q else 1)
+    return recv, calls
+
+
+def cparen(s):
+    return '(%s)' % s if ' ' in s else s
+
+
+def sw_index(text, var, where):
+    """an index expression over the loop variable -> Coq wire_ix"""
+    text = re.sub(r'^\( (.*) \)$', r'\1', text)
+    if text == var or text == '%s as usize' % var:
+        return 'IxVar'
+    if re.fullmatch(r'\d+', text):
+        return 'IxConst %d' % int(text)
+    m = re.fullmatch(r'%s \+ (\d+)' % re.escape(var), text) or re.fullmatch(r'(\d+) \+ %s' % re.escape(var), text)
+    if m:
+        return 'IxVarPlus %d' % int(m.group(1))
+    raise TranslateError('%s: unrecognised index expression (expected `%s`, a literal, or `%s + <literal>`): %s' % (where, var, var, text[:100]))
+
+
+def gen_start_wiring():
+    where = '%s fn game_start' % DE_RS
+    check_layout_helpers()
+    consts = layout_consts()
+    pparams, pret, pbody = find_fn(DE_RS, None, 'player')
+    pps = parse_params(pparams, '%s fn player' % DE_RS)
+    if sj(pret) != '-> Result < Option < Player > >':
+        raise TranslateError('%s fn player: the return type is not Result<Option<Player>>: %s' % (DE_RS, sj(pret)))
+    params, ret, body = find_fn(DE_RS, None, 'game_start')
+    if sjp(params) != 'r : & mut & [ u8 ]' or sj(ret) != '-> Result < game :: Start >':
+        raise TranslateError('%s: unexpected signature (%s) %s' % (where, sjp(params), sj(ret)))
+    raw = fw_stmts(body, where)
+    txt = [sj(x) for x in raw]
+    # every top-level `let`: name -> (position, initialiser text); a name bound twice is not recognised
+    lets = {}
+    for k, s in enumerate(txt):
+        m = re.match(r'let (?:mut )?([\w#]+)(?: : [^=]*)? = (.*)$', s)
+        if m:
+            if m.group(1) in lets:
+                raise TranslateError('%s: `%s` is bound twice at the top level' % (where, m.group(1)))
+            lets[m.group(1)] = (k, m.group(2))
+    # the one statement that calls player
+    callers = [k for k, st in enumerate(raw) if any(st[i] == ('id', 'player') and i + 1 < len(st) and st[i + 1] == ('punct', '(') for i in range(len(st)))]
+    mentions = [k for k, st in enumerate(raw) if ('id', 'player') in st]
+    if len(callers) != 1 or mentions != callers:
+        raise TranslateError('%s: expected exactly one statement that mentions `player`, found %d calling / %d mentioning it' % (where, len(callers), len(mentions)))
+    kp = callers[0]
+    st = raw[kp]
+    m = re.match(r'let (mut )?(\w+) = ', txt[kp])
+    if not m:
+        raise TranslateError('%s: the statement calling `player` is not `let <name> = ..`: %s' % (where, txt[kp][:200]))
+    target = m.group(2)
+    w2 = where + ' (let %s)' % target
+    init = st[4:] if m.group(1) else st[3:]
+    # any adaptor, anywhere in the statement, through which an Err / a player can disappear: named explicitly
+    for i in range(len(init) - 2):
+        if init[i] == ('punct', '.') and init[i + 1][0] == 'id' and init[i + 2] == ('punct', '(') and init[i + 1][1] in SW_STRICT:
+            raise TranslateError('%s: `.%s(..)`: an `Err` of `player(..)` (or a player) can be dropped or replaced silently there; only '
+                                 '`(lo..hi).filter_map(|n| player(..).transpose()).collect::<Result<Vec<_>>>()?` is recognised' % (w2, init[i + 1][1]))
+    if sum(1 for t in init if t == ('id', 'filter_map')) != 1 or ('id', 'Result') in [t for i, t in enumerate(init) if i + 2 < len(init) and init[i + 1] == ('punct', '::') and init[i + 2][1] in ('ok', 'unwrap_or_default')]:
+        raise TranslateError('%s: a second `filter_map` / `Result::ok` in the chain: an `Err` of `player(..)` can be dropped silently' % w2)
+    recv, calls = method_chain(init, w2)
+    names = [c[0] for c in calls]
+    q = [c[3] for c in calls]
+    for nm in names:
+        if nm in SW_SWALLOW and nm != 'map':
+            raise TranslateError('%s: `.%s(..)` in the chain that collects the players: an `Err` of `player(..)` (or a player) could be dropped, '
+                                 'replaced or reordered silently; only `(lo..hi).filter_map(|n| player(..).transpose()).collect::<Result<Vec<_>>>()?` is recognised' % (w2, nm))
+    if names != ['filter_map', 'collect'] or q != [False, True]:
+        raise TranslateError('%s: the chain is not `(lo..hi).filter_map(|n| ..).collect::<Result<Vec<_>>>()?` (methods %s, `?` after them %s)' % (w2, names, q))
+    if calls[1][1] not in ('Result < Vec < _ > >', 'Result < Vec < Player > >', 'Result < Vec < game :: Player > >') or calls[1][2]:
+        raise TranslateError('%s: `collect` is not `collect::<Result<Vec<_>>>()` (an Err must abort the whole collection): %s' % (w2, calls[1][1]))
+    mr = re.fullmatch(r'\( (\w+) \.\. (\w+) \)', sj(recv))
+    if not mr:
+        raise TranslateError('%s: the iterated range is not `(<lo>..<hi>)` with literal / constant bounds: %s' % (w2, sj(recv)[:100]))
+
+    def bound(x):
+        return num(x) if x[0].isdigit() else consts(x)
+    lo, hi = bound(mr.group(1)), bound(mr.group(2))
+    # the closure: | n | player ( .. ) . transpose ( )   (braces optional)
+    cl = calls[0][2]
+    if len(cl) < 4 or cl[0] != ('punct', '|') or cl[1][0] != 'id' or cl[2] != ('punct', '|'):
+        raise TranslateError('%s: the argument of filter_map is not a closure `|n| ..`: %s' % (w2, sj(cl)[:200]))
+    var = cl[1][1]
+    cb = cl[3:]
+    if cb[0] == ('punct', '{') and match_close(cb, 0) == len(cb) - 1:
+        inner = fw_stmts(cb[1:-1], w2)
+        if len(inner) != 1:
+            raise TranslateError('%s: the closure body has %d statements, expected the single expression `player(..).transpose()`' % (w2, len(inner)))
+        cb = inner[0]
+    crecv, ccalls = method_chain(cb, w2 + ' closure')
+    cnames = [c[0] for c in ccalls]
+    for nm in cnames:
+        if nm in SW_SWALLOW:
+            raise TranslateError('%s: `.%s(..)` after `player(..)`: the Err / None of a player could be dropped or replaced silently; only '
+                                 '`player(..).transpose()` is recognised' % (w2, nm))
+    if tv(crecv[:2]) != ['player', '('] or cnames != ['transpose'] or ccalls[0][2] or ccalls[0][1] or ccalls[0][3]:
+        raise TranslateError('%s: the closure body is not `player(..).transpose()`: %s' % (w2, sj(cb)[:300]))
+    args = [a for a in af_split(crecv[2:-1], w2) if a]
+    if len(args) != len(pps):
+        raise TranslateError('%s: player is called with %d arguments, it has %d parameters' % (w2, len(args), len(pps)))
+    wiring = []
+    for (pname, pty), a in zip(pps, args):
+        s = sj(a)
+        wa = '%s argument `%s`' % (w2, pname)
+        mm = re.fullmatch(r'Port :: try_from \( (.*) as u8 \) \. unwrap \( \)', s)
+        if mm and pty == 'Port':
+            wiring.append((pname, 'WsPortOfIndex %s' % cparen(sw_index(mm.group(1), var, wa))))
+            continue
+        mm = re.fullmatch(r'& (\w+) \[ (.*) \]', s)
+        if mm and re.fullmatch(r'& \[ u8 ; \w+ \]', pty):
+            arr = mm.group(1)
+            if arr not in lets or not re.fullmatch(r'player_bytes :: < \w+ , \w+ > \( r \) \?', lets[arr][1]) or lets[arr][0] > kp:
+                raise TranslateError('%s: `%s` is not bound by `let %s = player_bytes::<N, M>(r)?` before the call' % (wa, arr, arr))
+            wiring.append((pname, 'WsArrayRef %s %s' % (coq_str(arr), cparen(sw_index(mm.group(2), var, wa)))))
+            continue
+        mm = re.fullmatch(r'(\w+) \. map \( \| (\w+) \| \2(?: \. (\d+))? \[ (.*) \] \)', s)
+        if mm and re.fullmatch(r'Option < \[ u8 ; \w+ \] >', pty):
+            arr = mm.group(1)
+            if arr not in lets or not lets[arr][1].startswith('if_more ( r , | r | ') or not lets[arr][1].endswith(') ?') or lets[arr][0] > kp:
+                raise TranslateError('%s: `%s` is not bound by `let %s = if_more(r, |r| ..)?` before the call' % (wa, arr, arr))
+            if mm.group(2) == var:
+                raise TranslateError('%s: the closure parameter shadows the loop variable `%s`' % (wa, var))
+            wiring.append((pname, 'WsOptIndex %s %s %s' % (coq_str(arr), coq_str(mm.group(3) or ''), cparen(sw_index(mm.group(4), var, wa)))))
+            continue
+        if re.fullmatch(r'\w+', s) and pty == 'bool':
+            if s not in lets or lets[s][1] != 'r . read_u8 ( ) ? != 0' or lets[s][0] > kp:
+                raise TranslateError('%s: `%s` is not bound by `let %s = r.read_u8()? != 0` before the call' % (wa, s, s))
+            wiring.append((pname, 'WsLocalNonZero %s' % coq_str(s)))
+            continue
+        raise TranslateError('%s (: %s): unrecognised argument (expected `Port::try_from(<ix> as u8).unwrap()`, `&<array>[<ix>]`, `<tail>.map(|p| p[<ix>])`, '
+                             '`<tail>.map(|p| p.<k>[<ix>])`, or a local `let x = r.read_u8()? != 0`): %s' % (wa, pty, s[:200]))
+    # the collected vector reaches the result by shorthand, and nothing re-binds or touches it in between
+    last = txt[-1]
+    ml = re.fullmatch(r'Ok \( game :: Start \{ (.*) \} \)', last)
+    fields = ml.group(1).split(' , ') if ml else []
+    if target not in fields:
+        raise TranslateError('%s: `%s` is not passed on (by shorthand) in the final `Ok(game::Start { .. })`: %s' % (where, target, last[:300]))
+    for k in range(kp + 1, len(raw) - 1):
+        if ('id', target) in raw[k]:
+            raise TranslateError('%s: `%s` is used between its definition and the final struct literal: %s' % (where, target, txt[k][:200]))
+    sdecl = dict(parse_struct_decl(tokenize(read(GAME_RS), GAME_RS), 'Start', GAME_RS))
+    if sdecl.get(target) != 'Vec < Player >':
+        raise TranslateError('%s: Start.%s is not a Vec<Player>: %s' % (GAME_RS, target, sdecl.get(target)))
+
+    L = []
+    L.append('(* GENERATED by tools/rust2coq.py from %s (fn game_start: the statement that calls `player`; the signature of fn player) -- do not edit. *)' % DE_RS)
+    L.append('From Coq Require Import List String.')
+    L.append('Import ListNotations.')
+    L.append('Local Open Scope string_scope.')
+    L.append('')
+    L.append('(* an index expression over the loop variable `%s`: the variable, a literal, the variable plus a literal *)' % var)
+    L.append('Inductive wire_ix := IxVar | IxConst (k : nat) | IxVarPlus (k : nat).')
+    L.append('(* what is passed for one parameter of `player`:')
+    L.append('   WsPortOfIndex ix        Port::try_from(<ix> as u8).unwrap()')
+    L.append('   WsArrayRef a ix         &a[<ix>]            where `let a = player_bytes::<N, M>(r)?` (fixed part of the block)')
+    L.append('   WsLocalNonZero x        x                   where `let x = r.read_u8()? != 0`')
+    L.append('   WsOptIndex t k ix       t.map(|p| p[<ix>])  (k = "") or t.map(|p| p.<k>[<ix>]), where `let t = if_more(r, |r| ..)?` (an optional tail) *)')
+    L.append('Inductive wire_src :=')
+    L.append('| WsPortOfIndex (ix : wire_ix) | WsArrayRef (arr : string) (ix : wire_ix) | WsLocalNonZero (name : string)')
+    L.append('| WsOptIndex (tail : string) (comp : string) (ix : wire_ix).')
+    L.append('(* the arguments of `player(..)` in call order, each with the name of the parameter of fn player at that position *)')
+    L.append('Definition start_player_wiring : list (string * wire_src) :=\n  [%s].' % ';\n   '.join('(%s, %s)' % (coq_str(p), w) for p, w in wiring))
+    L.append('(* the ports iterated: (%s..%s) *)' % (mr.group(1), mr.group(2)))
+    L.append('Definition start_player_range : nat * nat := (%d, %d).' % (lo, hi))
+    L.append('(* let %s = (..).filter_map(|%s| player(..).transpose()).collect::<Result<Vec<_>>>()?:' % (target, var))
+    L.append('   PpFilterMapTranspose: Ok(None) -> dropped, Ok(Some(p)) -> Ok(p), Err(e) -> Err(e) kept in the stream;')
+    L.append('   PpCollectResultVec: the first Err aborts the collection; PpQuestion: that Err is the result of game_start *)')
+    L.append('Inductive pipe_step := PpFilterMapTranspose | PpCollectResultVec | PpQuestion.')
+    L.append('Definition start_players_pipeline : list pipe_step := [PpFilterMapTranspose; PpCollectResultVec; PpQuestion].')
+    L.append('Definition start_players_errors_propagate : bool := true.')
+    L.append('Definition start_players_none_dropped : bool := true.')
+    L.append('(* the field of game::Start (a Vec<Player>) that receives the collected vector, by shorthand in the final literal *)')
+    L.append('Definition start_players_field : string := %s.' % coq_str(target))
+    return '\n'.join(L) + '\n'
+
+
+# ------------------------------------------------------------------------------------------------
+# (u) JSON-shape front end: the `#[derive(Serialize)]` declarations reachable from game::Start and game::End (src/game/mod.rs,
+#     src/io/slippi/mod.rs, src/game/shift_jis.rs): field names in order, serde attributes, the kind of every field -> Gen/JsonShape.v
+
+SLIPPI_MOD_RS = 'src/io/slippi/mod.rs'
+JS_FILES = (GAME_RS, SLIPPI_MOD_RS, SJ_RS)
+JS_ROOTS = (('Start', GAME_RS), ('End', GAME_RS))
+JS_PLAIN_ATTRS = ('doc', 'allow', 'repr', 'derive', 'deprecated')
+
+
+def attrs_before(toks, i):
+    """the contents (token lists) of the `#[..]` attributes immediately before position i, `pub` / `pub(..)` skipped"""
+    j = i - 1
+    if j >= 0 and toks[j] == ('punct', ')'):
+        k = j
+        while k > 0 and toks[k] != ('punct', '('):
+            k -= 1
+        if k > 0 and toks[k - 1] == ('id', 'pub'):
+            j = k - 2
+    elif j >= 0 and toks[j] == ('id', 'pub'):
+        j -= 1
+    out = []
+    while j >= 1 and toks[j] == ('punct', ']'):
+        d = 0
+        k = j
+        while k >= 0:
+            if toks[k] == ('punct', ']'):
+                d += 1
+            elif toks[k] == ('punct', '['):
+                d -= 1
+                if d == 0:
+                    break
+            k -= 1
+        if k < 1 or toks[k - 1] != ('punct', '#'):
+            break
+        out.insert(0, toks[k + 1:j])
+        j = k - 2
+    return out
+
+
+def js_serde_items(attrs, where, allowed):
+    """the items of every `serde(..)` attribute, as token-joined texts; every other attribute must be a plain one"""
+    items = []
+    for a in attrs:
+        if not a or a[0][0] != 'id':
+            raise TranslateError('%s: unrecognised attribute: %s' % (where, sj(a)[:100]))
+        if a[0][1] == 'serde':
+            if len(a) < 3 or a[1] != ('punct', '(') or match_close(a, 1) != len(a) - 1:
+                raise TranslateError('%s: unrecognised serde attribute: %s' % (where, sj(a)[:100]))
+            for it in af_split(a[2:-1], where):
+                if it:
+                    items.append(sj(it))
+        elif a[0][1] not in JS_PLAIN_ATTRS:
+            raise TranslateError('%s: unrecognised attribute `%s` (it could change what is serialised): %s' % (where, a[0][1], sj(a)[:100]))
+    for it in items:
+        if not any(re.fullmatch(p, it) for p in allowed):
+            raise TranslateError('%s: unrecognised serde attribute `%s` (only %s are modelled)' % (where, it, ', '.join(allowed) or 'none'))
+    return items
+
+
+def js_derives(attrs):
+    out = []
+    for a in attrs:
+        if a and a[0] == ('id', 'derive'):
+            out.extend(x for x in tv(a[2:-1]) if x != ',')
+    return out
+
+
+def js_find_decl(name, cur_rel, where):
+    """the file that declares `struct name` / `enum name`: the current file, or (if the current file imports the name) one of the others"""
+    found = []
+    for rel in (cur_rel,) + tuple(f for f in JS_FILES if f != cur_rel):
+        toks = tokenize(read(rel), rel)
+        for kw in ('struct', 'enum'):
+            i = find_seq(toks, [kw, name])
+            if i >= 0 and toks[i + 2][1] in ('{', '(', ';', '<'):
+                found.append((rel, kw, toks, i))
+        if found and rel == cur_rel:
+            break
+    if len(found) != 1:
+        raise TranslateError('%s: the type %s is declared in %d of %s' % (where, name, len(found), ', '.join(JS_FILES)))
+    rel, kw, toks, i = found[0]
+    if rel != cur_rel:
+        cur = tokenize(read(cur_rel), cur_rel)
+        vals = tv(cur)
+        ok = False
+        k = 0
+        while k < len(vals):
+            if vals[k] == 'use' and cur[k][0] == 'id':
+                e = vals.index(';', k)
+                ok = ok or name in vals[k:e] or (rel == SLIPPI_MOD_RS and 'slippi' in vals[k:e])
+                k = e
+            k += 1
+        if not ok:
+            raise TranslateError('%s: the type %s (declared in %s) is not imported by %s' % (where, name, rel, cur_rel))
+    return rel, kw, toks, i
+
+
+def gen_json_shape():
+    structs = []      # (name, rel, [(json key, omit, kind)])
+    tuples = []       # (name, rel, [kind])
+    enums = []        # (name, rel, [(code, variant)])
+    skipped = []      # (struct, field)
+    done = {}
+
+    def kind_of(ty, rel, where):
+        if ty in ('u8', 'u16', 'u32', 'u64'):
+            return 'JkUInt %s' % ty[1:]
+        if ty in ('i8', 'i16', 'i32', 'i64'):
+            return 'JkSInt %s' % ty[1:]
+        if ty == 'f32':
+            return 'JkF32'
+        if ty == 'bool':
+            return 'JkBool'
+        if ty == 'String':
+            return 'JkString'
+        m = re.fullmatch(r'\[ (.*) ; (\d+) \]', ty)
+        if m:
+            return 'JkArray %d %s' % (int(m.group(2)), cparen(kind_of(m.group(1), rel, where)))
+        m = re.fullmatch(r'Vec < (.*) >', ty)
+        if m:
+            return 'JkVec %s' % cparen(kind_of(m.group(1), rel, where))
+        m = re.fullmatch(r'Option < (.*) >', ty)
+        if m:
+            return 'JkOption %s' % cparen(kind_of(m.group(1), rel, where))
+        if ty in ('f64', 'u128', 'i128', 'usize', 'isize', 'char', 'str', '& str'):
+            raise TranslateError('%s: the primitive type %s has no modelled JSON rendering' % (where, ty))
+        m = re.fullmatch(r'(?:(\w+) :: )?(\w+)', ty)
+        if m and m.group(1) in (None, 'slippi', 'game', 'shift_jis'):
+            return visit(m.group(2), SLIPPI_MOD_RS if m.group(1) == 'slippi' else rel, where)
+        raise TranslateError('%s: unrecognised field type: %s' % (where, ty[:100]))
+
+    def visit(name, from_rel, where):
+        rel, kw, toks, i = js_find_decl(name, from_rel, where)
+        key = (name, rel)
+        w = '%s %s %s' % (rel, kw, name)
+        if key in done:
+            if done[key] is None:
+                raise TranslateError('%s: recursive type' % w)
+            return done[key]
+        done[key] = None
+        attrs = attrs_before(toks, i)
+        js_serde_items(attrs, w, ())          # no container-level serde attribute is modelled (rename_all, transparent, tag, ..)
+        if 'Serialize' not in js_derives(attrs):
+            raise TranslateError('%s: does not derive Serialize (a hand-written impl is not modelled)' % w)
+        for t in JS_FILES:
+            tt = tokenize(read(t), t)
+            if find_seq(tt, ['Serialize', 'for', name]) >= 0:
+                raise TranslateError('%s: a hand-written `impl Serialize for %s` exists in %s' % (w, name, t))
+        if toks[i + 2][1] == '<':
+            raise TranslateError('%s: generic declarations are not recognised' % w)
+        if kw == 'enum':
+            e = match_close(toks, i + 2)
+            body = toks[i + 3:e]
+            if any(t[1] in ('#', '(', '{') for t in body):
+                raise TranslateError('%s: a variant carries an attribute or data; only unit variants `Name = <code>` are modelled' % w)
+            vs = enum_codes(rel, name)
+            done[key] = 'JkEnum %s' % coq_str(name)
+            enums.append((name, rel, [(c, n) for n, c in vs]))
+            return done[key]
+        e = match_close(toks, i + 2)
+        tup = toks[i + 2][1] == '('
+        flds = [f for f in af_split(toks[i + 3:e], w) if f]
+        if tup:
+            done[key] = 'JkTuple %s' % coq_str(name)
+            slot = len(tuples)
+            tuples.append(None)
+            ks = []
+            for idx, f in enumerate(flds):
+                fa = []
+                while f and f[0] == ('punct', '#'):
+                    c = match_close(f, 1)
+                    fa.append(f[2:c])
+                    f = f[c + 1:]
+                js_serde_items(fa, '%s field %d' % (w, idx), ())
+                f = [t for t in f if t != ('id', 'pub')]
+                ks.append(kind_of(sj(f), rel, '%s field %d' % (w, idx)))
+            tuples[slot] = (name, rel, ks)
+            return done[key]
+        done[key] = 'JkStruct %s' % coq_str(name)
+        slot = len(structs)
+        structs.append(None)
+        out = []
+        seen = set()
+        for f in flds:
+            fa = []
+            while f and f[0] == ('punct', '#'):
+                c = match_close(f, 1)
+                fa.append(f[2:c])
+                f = f[c + 1:]
+            if f and f[0] == ('id', 'pub'):
+                f = f[1:]
+                if f and f[0] == ('punct', '('):
+                    f = f[match_close(f, 0) + 1:]
+            if len(f) < 3 or f[0][0] != 'id' or f[1] != ('punct', ':'):
+                raise TranslateError('%s: unrecognised field: %s' % (w, sj(f)[:100]))
+            fn_ = fname(f[0][1])
+            wf = '%s field %s' % (w, fn_)
+            items = js_serde_items(fa, wf, (r'skip', r'skip_serializing', r'skip_serializing_if = "Option::is_none"', r'rename = "\w+"'))
+            ty = sj(f[2:])
+            if 'skip' in items or 'skip_serializing' in items:
+                if len(items) != 1:
+                    raise TranslateError('%s: `skip` combined with other serde attributes: %s' % (wf, items))
+                skipped.append((name, fn_))
+                continue
+            key_ = fn_
+            omit = 'JoAlways'
+            for it in items:
+                mr = re.fullmatch(r'rename = "(\w+)"', it)
+                if mr:
+                    key_ = mr.group(1)
+                else:
+                    if not re.fullmatch(r'Option < .* >', ty):
+                        raise TranslateError('%s: skip_serializing_if = "Option::is_none" on a field of type %s' % (wf, ty))
+                    omit = 'JoSkipIfNone'
+            if key_ in seen:
+                raise TranslateError('%s: two fields are serialised under the key "%s"' % (w, key_))
+            seen.add(key_)
+            out.append((key_, fn_, omit, kind_of(ty, rel, wf)))
+        structs[slot] = (name, rel, out)
+        return done[key]
+
+    for nm, rel in JS_ROOTS:
+        visit(nm, rel, '%s (root)' % rel)
+    if not cargo_preserve_order():
+        pass    # the order of struct fields does not depend on serde_json's map type (derive(Serialize) emits them in declaration order)
+    L = []
+    L.append('(* GENERATED by tools/rust2coq.py from the `#[derive(Serialize)]` declarations reachable from game::Start and game::End')
+    L.append('   (%s) -- do not edit. *)' % ', '.join(JS_FILES))
+    L.append('From Coq Require Import NArith List String.')
+    L.append('Import ListNotations.')
+    L.append('Local Open Scope string_scope.')
+    L.append('')
+    L.append('(* how serde_json renders a field of a given Rust type:')
+    L.append('   JkUInt / JkSInt bits: an unsigned / signed integer; JkF32; JkBool; JkString;')
+    L.append('   JkStruct n: an object, fields below (json_structs); JkTuple n: a tuple struct (json_tuples): ONE field = a serde newtype, rendered as')
+    L.append('   that field, otherwise an array; JkEnum n: a unit-variant enum, rendered as the variant name (json_enums);')
+    L.append('   JkArray n k = [T; n] and JkVec k = Vec<T>: arrays; JkOption k = Option<T>: null or the value *)')
+    L.append('Inductive jkind :=')
+    L.append('| JkUInt (bits : nat) | JkSInt (bits : nat) | JkF32 | JkBool | JkString')
+    L.append('| JkStruct (name : string) | JkTuple (name : string) | JkEnum (name : string)')
+    L.append('| JkArray (n : nat) (k : jkind) | JkVec (k : jkind) | JkOption (k : jkind).')
+    L.append('(* JoAlways: the key is always written; JoSkipIfNone: #[serde(skip_serializing_if = "Option::is_none")] *)')
+    L.append('Inductive jomit := JoAlways | JoSkipIfNone.')
+    L.append('(* per struct, in declaration order: (JSON key, Rust field name, omission rule, kind); #[serde(skip)] fields are in json_skipped *)')
+    L.append('Definition json_structs : list (string * list (string * string * jomit * jkind)) :=\n  [%s].' % ';\n   '.join(
+        '(%s,\n    [%s])' % (coq_str(n), ';\n     '.join('(%s, %s, %s, %s)' % (coq_str(k), coq_str(f), o, kd) for k, f, o, kd in fl)) for n, _, fl in structs))
+    L.append('Definition json_skipped : list (string * string) := [%s].' % '; '.join('(%s, %s)' % (coq_str(a), coq_str(b)) for a, b in skipped))
+    L.append('Definition json_tuples : list (string * list jkind) :=\n  [%s].' % ';\n   '.join(
+        '(%s, [%s])' % (coq_str(n), '; '.join(ks)) for n, _, ks in tuples))
+    L.append('(* unit-variant enums without serde attributes: (code, variant name) in declaration order *)')
+    L.append('Definition json_enums : list (string * list (N * string)) :=\n  [%s].' % ';\n   '.join(
+        '(%s, [%s])' % (coq_str(n), '; '.join('(%d%%N, %s)' % (c, coq_str(v)) for c, v in vs)) for n, _, vs in enums))
+    L.append('(* where each declaration was found *)')
+    L.append('Definition json_decl_files : list (string * string) :=\n  [%s].' % '; '.join(
+        '(%s, %s)' % (coq_str(n), coq_str(r)) for n, r, _ in structs + tuples + enums))
+    return '\n'.join(L) + '\n'
+
+
+# ------------------------------------------------------------------------------------------------
+# (v) UBJSON body front end: what Gen/UbjsonMarkers.v (front end (h), which compares these bodies with fixed texts) does not say:
+#     the width / signedness / byte order of every read and write, the steps of to_utf8, the depth guard and the depths passed
+#     around, the length prefix and the integer conversion of the writer -> Gen/UbjsonBodies.v
+
+UB_LOSSY = ('from_utf8_lossy', 'from_utf8_unchecked', 'trim', 'trim_end', 'trim_start', 'trim_matches', 'trim_end_matches', 'trim_start_matches',
+            'replace', 'to_lowercase', 'to_uppercase', 'to_ascii_lowercase', 'to_ascii_uppercase', 'strip_prefix', 'strip_suffix', 'chars', 'unwrap_or',
+            'unwrap_or_default', 'unwrap_or_else', 'ok', 'truncate', 'retain', 'pop', 'filter')
+
+
+def ub_rw(text, where, prefix):
+    """`read_u8` / `read_i32 :: < BigEndian >` / `write_u16 :: < LittleEndian >` -> (bytes, signed, big endian)"""
+    m = re.fullmatch(r'%s_([iu])(8|16|32|64)(?: :: < (\w+) >)?' % prefix, text)
+    if not m:
+        raise TranslateError('%s: unrecognised integer access `%s`' % (where, text))
+    w = int(m.group(2)) // 8
+    if (w == 1) != (m.group(3) is None) or m.group(3) not in (None, 'BigEndian', 'LittleEndian'):
+        raise TranslateError('%s: `%s`: a multi-byte access needs ::<BigEndian> / ::<LittleEndian>, a one-byte access takes none' % (where, text))
+    return w, m.group(1) == 'i', m.group(3) != 'LittleEndian'
+
+
+def ub_coq_rw(t):
+    return '(%d, %s, %s)' % (t[0], 'true' if t[1] else 'false', 'true' if t[2] else 'false')
+
+
+def gen_ubjson_bodies():
+    det = tokenize(read(UBJ_DE), UBJ_DE)
+    if find_seq(det, ['use', 'byteorder', '::', '{', 'BigEndian', ',', 'ReadBytesExt', '}', ';']) < 0:
+        raise TranslateError('%s: `use byteorder::{BigEndian, ReadBytesExt};` not found' % UBJ_DE)
+    D = []
+    # ---- to_utf8
+    where = '%s fn to_utf8' % UBJ_DE
+    p_, r_, b_ = find_fn(UBJ_DE, None, 'to_utf8')
+    if sj(r_) != '-> Result < String >' or not sjp(p_).startswith('r : & mut R'):
+        raise TranslateError('%s: unexpected signature (%s) %s' % (where, sjp(p_), sj(r_)))
+    for t in b_:
+        if t[0] == 'id' and t[1] in UB_LOSSY:
+            raise TranslateError('%s: `%s`: a lossy / trimming / replacing conversion of the string is not recognised (only the strict String::from_utf8)' % (where, t[1]))
+    m = strict_match([sj(x) for x in fw_stmts(b_, where)], [
+        ('`let length = r.read_<int>()?`', r'let (\w+) = r \. (read_\w+(?: :: < \w+ >)?) \( \) \?'),
+        ('`let mut buf = vec![0; length as usize]`', r'let mut (\w+) = vec ! \[ 0(?:u8)? ; (\w+) as usize \]'),
+        ('`r.read_exact(&mut buf)?`', r'r \. read_exact \( & mut (\w+) \) \?'),
+        ('`Ok(String::from_utf8(buf)?)`', r'Ok \( String :: (\w+) \( (\w+) \) \? \)'),
+    ], where)
+    if m[1].group(2) != m[0].group(1) or m[2].group(1) != m[1].group(1) or m[3].group(2) != m[1].group(1):
+        raise TranslateError('%s: the length / the buffer are not threaded through the four statements' % where)
+    if m[3].group(1) != 'from_utf8':
+        raise TranslateError('%s: the conversion is `String::%s`, not the strict `String::from_utf8`' % (where, m[3].group(1)))
+    len_rd = ub_rw(m[0].group(2), where, 'read')
+    D.append('(* integer accesses are (width in bytes, signed, big-endian) *)')
+    D.append('(* %s: let length = r.%s()?; let mut buf = vec![0; length as usize]; r.read_exact(&mut buf)?; Ok(String::from_utf8(buf)?) *)' % (where, m[0].group(2).replace(' ', '')))
+    D.append('Inductive ub_utf8_step := UsReadLen (rd : nat * bool * bool) | UsAllocLen | UsReadExact | UsFromUtf8Strict.')
+    D.append('Definition ubj_to_utf8_steps : list ub_utf8_step := [UsReadLen %s; UsAllocLen; UsReadExact; UsFromUtf8Strict].' % ub_coq_rw(len_rd))
+    # ---- to_val / to_key: the reads of the marker bytes and of the integer
+    where = '%s fn to_val' % UBJ_DE
+    p_, r_, b_ = find_fn(UBJ_DE, None, 'to_val')
+    if sjp(p_) != 'r : & mut R , depth : usize':
+        raise TranslateError('%s: unexpected parameters: %s' % (where, sjp(p_)))
+    v = tv(b_)
+    j = StmtView(b_, where).first_top(1, len(b_), '{')
+    ms = re.fullmatch(r'r \. (read_\w+(?: :: < \w+ >)?) \( \) \?', sj(b_[1:j])) if v[:1] == ['match'] and j > 0 and match_close(b_, j) == len(b_) - 1 else None
+    if not ms:
+        raise TranslateError('%s: the body is not `match r.read_<int>()? { .. }`: %s' % (where, sj(b_)[:200]))
+    val_marker_rd = ub_rw(ms.group(1), where, 'read')
+    str_marker_rd = None
+    int_rd = None
+    int_conv = None
+    nested = None
+    for pat, body in match_arms(b_[j + 1:-1], where):
+        mm = re.fullmatch(r'match r \. (read_\w+(?: :: < \w+ >)?) \( \) \? \{ (\S+) => Ok \( Value :: String \( to_utf8 \( r \) \? \) \) , \w+ => Err \( err ! \( .* \) \) \}', body)
+        if mm:
+            if str_marker_rd is not None:
+                raise TranslateError('%s: two string arms' % where)
+            str_marker_rd = ub_rw(mm.group(1), where, 'read')
+            continue
+        mm = re.fullmatch(r'Ok \( Value :: Number \( (.*) \( r \. (read_\w+(?: :: < \w+ >)?) \( \) \? \) \) \)', body)
+        if mm:
+            if int_rd is not None:
+                raise TranslateError('%s: two number arms' % where)
+            if mm.group(1) not in ('serde_json :: Number :: from', 'Number :: from'):
+                raise TranslateError('%s: the number is not built by `serde_json::Number::from(<read>)`: %s' % (where, mm.group(1)[:100]))
+            int_rd = ub_rw(mm.group(2), where, 'read')
+            int_conv = 'UnNumberFrom'
+            continue
+        mm = re.fullmatch(r'Ok \( Value :: Object \( read_map_at \( r , (.*) \) \? \) \)', body)
+        if mm:
+            if nested is not None:
+                raise TranslateError('%s: two object arms' % where)
+            nested = mm.group(1)
+            continue
+        if re.fullmatch(r'Err \( err ! \( .* \) \)', body):
+            continue
+        raise TranslateError('%s: unrecognised arm %s => %s' % (where, pat[:50], body[:200]))
+    if str_marker_rd is None or int_rd is None or nested is None:
+        raise TranslateError('%s: expected one string, one number and one object arm' % where)
+    where = '%s fn to_key' % UBJ_DE
+    p_, r_, b_ = find_fn(UBJ_DE, None, 'to_key')
+    v = tv(b_)
+    j = StmtView(b_, where).first_top(1, len(b_), '{')
+    ms = re.fullmatch(r'r \. (read_\w+(?: :: < \w+ >)?) \( \) \?', sj(b_[1:j])) if v[:1] == ['match'] and j > 0 and match_close(b_, j) == len(b_) - 1 else None
+    if not ms:
+        raise TranslateError('%s: the body is not `match r.read_<int>()? { .. }`: %s' % (where, sj(b_)[:200]))
+    key_marker_rd = ub_rw(ms.group(1), where, 'read')
+    D.append('(* to_val / to_key: the reads of the marker bytes (`match r.read_u8()? {`), of the byte after the string marker, and of the integer;')
+    D.append('   UnNumberFrom: the JSON number is serde_json::Number::from(<the integer read>), i.e. its value as read with that signedness *)')
+    D.append('Definition ubj_val_marker_read : nat * bool * bool := %s.' % ub_coq_rw(val_marker_rd))
+    D.append('Definition ubj_key_marker_read : nat * bool * bool := %s.' % ub_coq_rw(key_marker_rd))
+    D.append('Definition ubj_str_len_marker_read : nat * bool * bool := %s.' % ub_coq_rw(str_marker_rd))
+    D.append('Definition ubj_int_read : nat * bool * bool := %s.' % ub_coq_rw(int_rd))
+    D.append('Inductive ub_num_conv := UnNumberFrom.')
+    D.append('Definition ubj_int_conv : ub_num_conv := %s.' % int_conv)
+    # ---- the depth guard
+    where = '%s fn read_map_at' % UBJ_DE
+    p_, r_, b_ = find_fn(UBJ_DE, None, 'read_map_at')
+    if sjp(p_) != 'r : & mut R , depth : usize':
+        raise TranslateError('%s: unexpected parameters: %s' % (where, sjp(p_)))
+    sts = fw_stmts(b_, where)
+    txt = [sj(x) for x in sts]
+    blk = fw_if_block(sts[0], where) if sts else None
+    if blk is None or not re.fullmatch(r'return Err \( err ! \( .* \) \) ;', sj(blk[1])):
+        raise TranslateError('%s: the first statement is not `if <depth test> { return Err(err!(..)); }`: %s' % (where, txt[0][:200] if txt else ''))
+    rest = sj(b_[len(sts[0]):])
+    mt = re.fullmatch(r'let mut m = Map :: new \( \) ; while match to_key \( r \) \? \{ Some \( k \) => \{ m \. insert \( k , to_val \( r , (.*?) \) \? \) ; true \} '
+                      r'None => false \} \{ \} Ok \( m \)', rest)
+    if not mt:
+        raise TranslateError('%s: after the depth test, not `let mut m = Map::new(); while match to_key(r)? { Some(k) => { m.insert(k, to_val(r, <depth>)?); true } '
+                             'None => false } {} Ok(m)`: %s' % (where, rest[:400]))
+    ct, ce = find_const(UBJ_DE, 'MAX_DEPTH')
+    if ct != 'usize':
+        raise TranslateError('%s: MAX_DEPTH is not a usize: %s' % (UBJ_DE, ct))
+    env = {'depth': 'depth', 'MAX_DEPTH': 'UBJSON_MAX_DEPTH'}
+    p_, r_, b2 = find_fn(UBJ_DE, None, 'read_map')
+    mi = re.fullmatch(r'read_map_at \( r , (.*) \)', sj(b2))
+    if not mi:
+        raise TranslateError('%s fn read_map: not `read_map_at(r, <depth>)`: %s' % (UBJ_DE, sj(b2)[:200]))
+    D.append('(* read_map_at(r, depth): if %s { return Err(..) } ..; read_map = read_map_at(r, %s); to_val(r, depth) passes %s to a nested' % (blk[0].replace(' ', ''), mi.group(1), nested.replace(' ', '')))
+    D.append('   read_map_at and the loop of read_map_at passes %s to to_val (through the expression front end; MAX_DEPTH is UBJSON_MAX_DEPTH of Gen/Funs.v) *)' % mt.group(1))
+    D.append(expr_to_gallina(blk[0], [], env, where, 'ubj_depth_refused', ['depth'], 'bool'))
+    D.append(expr_to_gallina(mi.group(1), [], {}, '%s fn read_map' % UBJ_DE, 'ubj_depth_initial', [], 'N'))
+    D.append(expr_to_gallina(nested, [], env, '%s fn to_val' % UBJ_DE, 'ubj_depth_nested', ['depth'], 'N'))
+    D.append(expr_to_gallina(mt.group(1), [], env, where, 'ubj_depth_to_val', ['depth'], 'N'))
+
+    # ---- writer
+    sert = tokenize(read(UBJ_SER), UBJ_SER)
+    if find_seq(sert, ['use', 'byteorder', '::', '{', 'BigEndian', ',', 'WriteBytesExt', '}', ';']) < 0:
+        raise TranslateError('%s: `use byteorder::{BigEndian, WriteBytesExt};` not found' % UBJ_SER)
+    where = '%s fn write_utf8' % UBJ_SER
+    p_, r_, b_ = find_fn(UBJ_SER, None, 'write_utf8')
+    if sjp(p_) != 'w : & mut W , s : & str':
+        raise TranslateError('%s: unexpected parameters: %s' % (where, sjp(p_)))
+    m = strict_match([sj(x) for x in fw_stmts(b_, where)], [
+        ('`write!(w, "<marker>")?`', r'write ! \( w , "[^"]*" \) \?'),
+        ('`w.write_<int>(<length>)?`', r'w \. (write_\w+(?: :: < \w+ >)?) \( (.*) \) \?'),
+        ('`write!(w, "{}", s)?`', r'write ! \( w , "\{\}" , s \) \?'),
+        ('`Ok(())`', r'Ok \( \( \) \)'),
+    ], where)
+    len_wr = ub_rw(m[1].group(1), where, 'write')
+    ml = re.fullmatch(r's \. len \( \)( \. try_into \( \) \. unwrap \( \)| as \w+)', m[1].group(2))
+    if not ml:
+        raise TranslateError('%s: the length written is not `s.len().try_into().unwrap()` / `s.len() as <int>` (the BYTE length of the string; '
+                             '`s.chars().count()` and anything else is not recognised): %s' % (where, m[1].group(2)[:200]))
+    D.append('')
+    D.append('(* %s: write!(w, "<marker>")?; w.%s(%s)?; write!(w, "{}", s)?: the length prefix is the BYTE length s.len();' % (where, m[1].group(1).replace(' ', ''), m[1].group(2).replace(' ', '')))
+    D.append('   UcCheckedUnwrap: `.try_into().unwrap()` (a value that does not fit panics); UcTruncatingCast: `as <int>` (silently reduced) *)')
+    D.append('Inductive ub_len_src := UlByteLen.')
+    D.append('Inductive ub_conv := UcCheckedUnwrap | UcTruncatingCast.')
+    D.append('Definition ubj_wr_len_source : ub_len_src := UlByteLen.')
+    D.append('Definition ubj_wr_len_write : nat * bool * bool := %s.' % ub_coq_rw(len_wr))
+    D.append('Definition ubj_wr_len_conv : ub_conv := %s.' % ('UcCheckedUnwrap' if ml.group(1).startswith(' . try_into') else 'UcTruncatingCast'))
+    where = '%s fn write_map' % UBJ_SER
+    p_, r_, b_ = find_fn(UBJ_SER, None, 'write_map')
+    sts = fw_stmts(b_, where)
+    loop = fw_for_block(sts[0], where) if sts else None
+    inner = fw_stmts(loop[1], where) if loop else []
+    if len(sts) != 2 or loop is None or len(inner) != 2 or tv(inner[1][:3]) != ['match', 'v', '{'] or match_close(inner[1], 2) != len(inner[1]) - 1:
+        raise TranslateError('%s: not `for (k, v) in map { write_utf8(w, k)?; match v { .. } } Ok(())`' % where)
+    num_arms = [(p, b) for p, b in match_arms(inner[1][3:-1], where) if p.startswith('Value :: Number')]
+    mn = re.fullmatch(r'write ! \( w , "[^"]*" \) \? ; w \. (write_\w+(?: :: < \w+ >)?) \( (.*) \) \? ;', num_arms[0][1]) if len(num_arms) == 1 else None
+    mp = re.fullmatch(r'Value :: Number \( (\w+) \)', num_arms[0][0]) if mn else None
+    if not mn or not mp:
+        raise TranslateError('%s: expected exactly one arm `Value::Number(n) => { write!(w, "<marker>")?; w.write_<int>(<conversion of n>)?; }`' % where)
+    int_wr = ub_rw(mn.group(1), where, 'write')
+    mc = re.fullmatch(r'%s \. as_i64 \( \) \. unwrap \( \)( \. try_into \( \) \. unwrap \( \)| as \w+)' % mp.group(1), mn.group(2))
+    if not mc:
+        raise TranslateError('%s: the integer written is not `n.as_i64().unwrap().try_into().unwrap()` / `n.as_i64().unwrap() as <int>`: %s' % (where, mn.group(2)[:200]))
+    D.append('(* %s, Value::Number(n): w.%s(%s)? *)' % (where, mn.group(1).replace(' ', ''), mn.group(2).replace(' ', '')))
+    D.append('Definition ubj_wr_int_write : nat * bool * bool := %s.' % ub_coq_rw(int_wr))
+    D.append('Definition ubj_wr_int_conv : ub_conv := %s.' % ('UcCheckedUnwrap' if mc.group(1).startswith(' . try_into') else 'UcTruncatingCast'))
+
+    L = []
+    L.append('(* GENERATED by tools/rust2coq.py from %s (to_utf8, to_val, to_key, read_map, read_map_at) and' % UBJ_DE)
+    L.append('   %s (write_utf8, write_map): what Gen/UbjsonMarkers.v does not contain -- do not edit. *)' % UBJ_SER)
+    L.append('From Coq Require Import NArith Bool List String.')
+    L.append('From Peppi Require Import Gen.Funs.')
+    L.append('Import ListNotations.')
+    L.append('Local Open Scope string_scope.')
+    L.append('')
+    L.extend(D)
+    return '\n'.join(L) + '\n'
+
+
+# ------------------------------------------------------------------------------------------------
+# (w) tar-entry front end: fn tar_append and the closing statement of fn write (src/io/peppi/ser.rs) -> Gen/TarSrc.v
+
+def gen_tar_src():
+    where = '%s fn tar_append' % SLPP_SER
+    params, ret, body = find_fn(SLPP_SER, None, 'tar_append')
+    if sjp(params) != 'builder : & mut tar :: Builder < W > , buf : & [ u8 ] , path : P':
+        raise TranslateError('%s: unexpected parameters: %s' % (where, sjp(params)))
+    sts = [sj(x) for x in fw_stmts(body, where)]
+    if not sts or sts[-1] != 'Ok ( ( ) )':
+        raise TranslateError('%s: the body does not end with `Ok(())`' % where)
+    steps = []
+    hdr = None
+    for k, s in enumerate(sts[:-1]):
+        m = re.fullmatch(r'let mut (\w+) = tar :: Header :: (\w+) \( \)', s)
+        if m:
+            if hdr is not None or k != 0:
+                raise TranslateError('%s: a second header is created (or not as the first statement): %s' % (where, s))
+            hdr = m.group(1)
+            if m.group(2) not in ('new_gnu', 'new_ustar', 'new_old'):
+                raise TranslateError('%s: unknown header constructor tar::Header::%s' % (where, m.group(2)))
+            steps.append('TsNew %s' % {'new_gnu': 'ThGnu', 'new_ustar': 'ThUstar', 'new_old': 'ThOld'}[m.group(2)])
+            continue
+        if hdr is None:
+            raise TranslateError('%s: statement before `let mut header = tar::Header::new_gnu()`: %s' % (where, s[:200]))
+        if s == '%s . set_size ( buf . len ( ) . try_into ( ) ? )' % hdr:
+            steps.append('TsSetSizeBufLen')
+            continue
+        if s == '%s . set_path ( path ) ?' % hdr:
+            steps.append('TsSetPath')
+            continue
+        m = re.fullmatch(r'%s \. set_mode \( (.*) \)' % hdr, s)
+        if m:
+            t = m.group(1).replace(' ', '')
+            if not re.fullmatch(r'0o[0-7]+|\d+|0x[0-9a-fA-F]+', t):
+                raise TranslateError('%s: the mode is not an integer literal: %s' % (where, m.group(1)[:50]))
+            steps.append('TsSetMode %d' % (int(t, 10) if t.isdigit() else int(t, 0)))
+            continue
+        if s == '%s . set_cksum ( )' % hdr:
+            steps.append('TsSetCksum')
+            continue
+        if s == 'builder . append ( & %s , buf ) ?' % hdr:
+            steps.append('TsAppendBuf')
+            continue
+        raise TranslateError('%s: unrecognised statement (expected set_size(buf.len().try_into()?) / set_path(path)? / set_mode(<literal>) / set_cksum() / '
+                             'builder.append(&header, buf)?): %s' % (where, s[:200]))
+    for one in ('TsSetSizeBufLen', 'TsSetPath', 'TsSetCksum', 'TsAppendBuf'):
+        if steps.count(one) != 1:
+            raise TranslateError('%s: expected exactly one %s step, found %d' % (where, one, steps.count(one)))
+    if sum(1 for x in steps if x.startswith('TsSetMode')) != 1 or steps[-1] != 'TsAppendBuf':
+        raise TranslateError('%s: expected exactly one set_mode, and `builder.append(&header, buf)?` as the last step: %s' % (where, steps))
+    # ---- the closing statement of fn write
+    where = '%s fn write' % SLPP_SER
+    params, ret, body = find_fn(SLPP_SER, None, 'write')
+    sts = [sj(x) for x in fw_stmts(body, where)]
+    tar_lines = [k for k, s in enumerate(sts) if re.search(r'\btar \. ', s)]
+    if sts[-1] != 'Ok ( ( ) )' or tar_lines != [len(sts) - 2] or sts.count('let mut tar = tar :: Builder :: new ( w )') != 1:
+        raise TranslateError('%s: expected `let mut tar = tar::Builder::new(w);` once and one use of a method of `tar`, immediately before the final `Ok(())`' % where)
+    recv, calls = method_chain(tokenize(sts[-2], where), where)
+    fin = []
+    for nm, fish, a, q in calls:
+        if a or fish or not q or nm not in ('into_inner', 'finish', 'flush'):
+            raise TranslateError('%s: unrecognised call in the closing statement: .%s(%s)' % (where, nm, sj(a)[:50]))
+        fin.append({'into_inner': 'TfIntoInner', 'finish': 'TfFinish', 'flush': 'TfFlush'}[nm])
+    if sj(recv) != 'tar' or not calls:
+        raise TranslateError('%s: the closing statement is not `tar.<m>()?..?` with every error propagated: %s' % (where, sts[-2][:200]))
+    L = []
+    L.append('(* GENERATED by tools/rust2coq.py from %s (fn tar_append; the closing statement of fn write) -- do not edit. *)' % SLPP_SER)
+    L.append('From Coq Require Import NArith List String.')
+    L.append('Import ListNotations.')
+    L.append('')
+    L.append('(* tar_append(builder, buf, path): the statements in order.  TsNew k: `let mut header = tar::Header::<new_gnu|new_ustar|new_old>()`;')
+    L.append('   TsSetSizeBufLen: header.set_size(buf.len().try_into()?); TsSetPath: header.set_path(path)?; TsSetMode m: header.set_mode(<m>);')
+    L.append('   TsSetCksum: header.set_cksum() (over the header as it is at that point); TsAppendBuf: builder.append(&header, buf)? *)')
+    L.append('Inductive tar_hkind := ThGnu | ThUstar | ThOld.')
+    L.append('Inductive tar_step := TsNew (k : tar_hkind) | TsSetSizeBufLen | TsSetPath | TsSetMode (m : N) | TsSetCksum | TsAppendBuf.')
+    L.append('Definition tar_append_steps : list tar_step := [%s].' % '; '.join(x if ' ' not in x or x.startswith('TsNew') else 'TsSetMode %s%%N' % x.split(' ')[1] for x in steps))
+    L.append('(* fn write: `%s` immediately before the final Ok(()): TfIntoInner = tar.into_inner()? (finishes the archive: two zero blocks);' % sts[-2].replace(' ', ''))
+    L.append('   TfFinish = tar.finish()?; TfFlush = .flush()? of the underlying writer *)')
+    L.append('Inductive tar_fin := TfIntoInner | TfFinish | TfFlush.')
+    L.append('Definition tar_finish_steps : list tar_fin := [%s].' % '; '.join(fin))
+    return '\n'.join(L) + '\n'
+
+
 def write_if_changed(path, content):
     os.makedirs(os.path.dirname(path), exist_ok=True)
     try:
@@ -5562,7 +6341,9 @@ def main():
                       ('ArrowFrame.v', gen_arrow_frame), ('FrameTranspose.v', gen_frame_transpose), ('ReadPrologue.v', gen_read_prologue), ('SlppHelpers.v', gen_slpp_helpers),
                       ('RollbacksSrc.v', gen_rollbacks), ('VersionTextSrc.v', gen_version_text),
                       ('MeleeStringSrc.v', gen_melee_string), ('HashingSrc.v', gen_hashing),
-                      ('PortOccupancySrc.v', gen_port_occupancy)):
+                      ('PortOccupancySrc.v', gen_port_occupancy),
+                      ('StartWiring.v', gen_start_wiring), ('JsonShape.v', gen_json_shape),
+                      ('UbjsonBodies.v', gen_ubjson_bodies), ('TarSrc.v', gen_tar_src)):
         try:
             content = gen()
             if write_if_changed(os.path.join(OUT, name), content):
